@@ -212,7 +212,9 @@ Proof.
 Qed.
 
 Lemma parse_id_tag_print p n : (n < u64max)%N -> parse_id_tag p (p +++ print_N n) = Some n.
-Proof. intro H. unfold parse_id_tag. rewrite strip_prefix_app. apply read_u64_print_N. exact H. Qed.
+Proof.
+  intro H. unfold parse_id_tag. rewrite strip_prefix_app, (read_u64_print_N n H), String.eqb_refl. reflexivity.
+Qed.
 
 Lemma name_inj p a b : (a < u64max)%N -> (b < u64max)%N -> p +++ print_N a = p +++ print_N b -> a = b.
 Proof.
